@@ -77,16 +77,15 @@ pub fn cfg_for(prop: u8, case: &Case) -> RunCfg {
 pub fn owns_panic(prop: u8, double: bool, op: &'static str, after_special: bool) -> bool {
     // mirror of Interp::owns for Group::Panic
     let pq = !double;
-    let extract_op = matches!(op, "pop" | "pop_if" | "peek_mut" | "ctor");
     match prop {
         0 | 4 => true,
-        1 => pq && extract_op,
-        2 => !pq && extract_op,
-        3 => matches!(op, "push" | "change_priority" | "change_priority_by" | "remove" | "pop" | "get" | "get_mut" | "into_vec" | "ctor"),
+        1 => pq,
+        2 => !pq,
+        3 => true,
         6 => matches!(op, "sorted" | "sorted_iter"),
         7 => matches!(op, "extend" | "append" | "from_vec" | "from_iter" | "convert" | "ctor"),
         8 => matches!(op, "retain" | "retain_mut" | "iter_mut" | "pop_if"),
-        9 => op == "iter_mut",
+        9 => matches!(op, "iter_mut" | "adaptor_iter_mut"),
         11 => matches!(op, "push_increase" | "push_decrease"),
         13 => matches!(op, "iter" | "ref_into_iter" | "into_iter" | "drain" | "sorted_iter" | "adaptor"),
         14 => matches!(op, "eq" | "clone"),
@@ -187,7 +186,7 @@ pub fn rule_text(prop: u8) -> &'static str {
         15 => "state + serde round trip through 3 carriers as same/other kind; non-trivial = a round trip on >=3 elements with ties, or a deserialized pair sequence that repeats an item; distinct = hash of the case",
         16 => "state + clear/drain (consumption program, drop or forget) + continuation; non-trivial = size>=2 before, partial consumption or leak or clear, then >=3 further ops including an extraction; distinct = hash of the case",
         17 => "history with capacity ops interleaved; non-trivial = >=2 capacity ops on a non-empty queue and a later checked extraction; distinct = hash of the case",
-        5 => "(kind, n = 2^e + jitter with e up to 16 quick / 20 thorough, one of 6 priority patterns, an optional bulk operation, then up to 40 single-element operations with generated target class and new-priority class on an evolving queue); every public call is bracketed by a thread-local Ord::cmp counter and compared with fixed bounds: 0 for peek/peek_min/len/lookups, <=1 for peek_max, <=16*(floor(log2 n)+1)+32 for single-element operations, <=8*(n+k)+64 for bulk rebuilds; non-trivial = n>=1024 (at small n the logarithmic bound does not separate from linear) or a zero-comparison probe on n>=2; distinct = hash of the case",
+        5 => "(kind, n = 2^e + jitter with e up to 16 quick / 20 thorough, one of 6 priority patterns, an optional bulk operation, then up to 40 single-element operations with generated target class and new-priority class on an evolving queue); every public call is bracketed by a thread-local Ord::cmp counter and compared with fixed bounds: 0 for peek/peek_min/len/lookups, <=1 for peek_max, <=16*(floor(log2 n)+1)+32 for single-element operations, <=4*(n+k)+64 (PriorityQueue) / 6*(n+k)+64 (DoublePriorityQueue) for bulk rebuilds; non-trivial = n>=1024 (at small n the logarithmic bound does not separate from linear) or a zero-comparison probe on n>=2; distinct = hash of the case",
         10 => "history in which generated operations run with a fuse armed: the k-th Ord::cmp / Hash / Eq / Clone / predicate-or-setter / feeding-iterator callback inside the operation panics (k scaled into the number of callbacks counted on a clone, thorough tier sweeps every k), the panic is caught, and generated continuations plus a deterministic battery (pop all, remove all, pushes and priority changes, retain/iter_mut/drain, conversions) run on the survivor; iter_mut and drain guards are also leaked with mem::forget; oracle = the sanitizing build must not abort and no instrumented item/priority instance may be dropped twice or leaked; non-trivial = a fuse fired inside an operation on >=3 elements with >=3 continuation operations, or a guard leaked on a non-empty queue; distinct = hash of the case",
         14 => "a content set S and two independent histories (different constructors, hashers, capacities) equalised to S, a near-miss variant (one priority / one item removed / one added / two priorities exchanged), a From<Vec>-built third queue, then a clone driven in lock-step and one-sidedly; non-trivial = |S|>=3 and the two routes produced different raw arrangements, or the lock-step continuation had >=5 mutating ops; distinct = hash of the case",
         18 => "a history executed under 5 BuildHasher configurations (RandomState via new(), fixed SipHash, RandomState via with_hasher, XxHash64, all-colliding), each against the model, traces compared pairwise up to ties; non-trivial = >=10 ops incl. a removal, a priority change and a checked extraction on size>=4, all configurations incl. the colliding one run; distinct = hash of the case",
@@ -367,6 +366,16 @@ pub fn run_history_property(a: &WorkerArgs) -> WorkerReport {
     let mut failures_left = 3;
     let mut leg = 0u32;
     let mut remaining = a.cases;
+    #[cfg(feature = "std")]
+    if prop == 15 && a.worker % 100 == 0 {
+        // exhaustive small space: zero-sized item/priority types, sequences of length <= 2, 4 carriers
+        if let Some(f) = crate::special::zst_battery() {
+            let path = format!("{}/{}-zst-battery.json", a.replay_dir, pid);
+            let _ = std::fs::write(&path, "{\"zst_battery\":true}");
+            acc.rep.violations.push(ViolationRec { signature: f.signature(), detail: f.detail, replay: path, step: 0 });
+        }
+        acc.rep.extra.insert("zst_battery_cases".into(), serde_json::json!(4 * 3 * 5));
+    }
     while remaining > 0 && failures_left > 0 {
         let mut runner = TestRunner::new_with_rng(Config { cases: remaining, ..config.clone() }, TestRng::from_seed(RngAlgorithm::ChaCha, &mix_seed(a.seed, prop, a.worker, leg)));
         let mut last_fail: Option<Failure> = None;
@@ -455,6 +464,10 @@ pub fn run_history_property(a: &WorkerArgs) -> WorkerReport {
 
 /// Replay one case file under a property; returns the failure if it still fails.
 pub fn replay_history(prop: u8, text: &str, strict_known: &[KnownFinding]) -> Result<Option<Failure>, String> {
+    #[cfg(feature = "std")]
+    if prop == 15 && text.contains("zst_battery") {
+        return Ok(crate::special::zst_battery());
+    }
     let case: Case = serde_json::from_str(text).map_err(|e| format!("cannot parse case: {}", e))?;
     let cfg = cfg_for(prop, &case);
     let r = run_one(&case, &cfg, false);
